@@ -106,6 +106,42 @@ func viewsAgree(pos *board.Position, want *ref.Pos) string {
 	return ""
 }
 
+// viewsSelfConsistent: the lookup, the sets, the occupancy and the rotated occupancy of one
+// position against one another (no rules involved): want is the placement read from the sets.
+func viewsSelfConsistent(pos *board.Position, want *ref.Pos) string {
+	var all board.Bitboard
+	for s := int8(0); s < 64; s++ {
+		sq := bridge.Sq(s)
+		c, p, ok := pos.Square(sq)
+		v := want.Sq[s]
+		switch {
+		case v == 0 && ok:
+			return fmt.Sprintf("square %v: the lookup says %v%v, the piece sets hold nothing there", sq, c, p)
+		case v != 0 && !ok:
+			return fmt.Sprintf("square %v: the lookup says empty, the piece sets hold piece %d there", sq, v)
+		case v != 0:
+			wc, av := board.White, v
+			if v < 0 {
+				wc, av = board.Black, -v
+			}
+			if c != wc || p != bridge.Piece(av) {
+				return fmt.Sprintf("square %v: the lookup says %v%v, the piece sets say %v%v", sq, c, p, wc, bridge.Piece(av))
+			}
+			all |= board.BitMask(sq)
+		}
+		if pos.IsEmpty(sq) != (v == 0) {
+			return fmt.Sprintf("square %v: IsEmpty=%v", sq, pos.IsEmpty(sq))
+		}
+	}
+	if pos.All() != all || pos.Color(board.White)|pos.Color(board.Black) != all {
+		return fmt.Sprintf("occupancy %x / colour sets differ from the piece sets %x", uint64(pos.All()), uint64(all))
+	}
+	if pos.Rotated() != board.NewRotatedBitboard(all) || pos.Rotated().Mask() != all {
+		return "rotated occupancy differs from a rotation of the occupancy"
+	}
+	return ""
+}
+
 func compareSuccessor(n *Node, before *board.Position, m board.Move, rm ref.Move, sp *board.Position) string {
 	want := n.Ref.Make(rm)
 	if *n.Pos != *before {
@@ -161,6 +197,54 @@ func checkC02(c *harness.Check) {
 	if c.Thorough() {
 		WalkFlat(c, corpus.KXvK, nil, edge)
 		WalkFlat(c, corpus.PinFamily, nil, edge)
+	}
+	var cc classCap
+	// placements the decoder accepts although no game reaches them (two or three kings of one colour,
+	// none at all, a board full of queens): the rules say nothing about their moves, but every view
+	// of such a position - and of every successor the implementation itself produces from it - must
+	// still agree with every other view
+	for _, f := range []string{
+		"4k3/8/8/8/8/8/7P/K3K3 w - - 0 1", "k3k3/7p/8/8/8/8/8/4K3 b - - 0 1", "K6K/8/8/3k4/8/8/8/K6K w - - 0 1",
+		"8/8/8/8/8/8/P6p/R6r w - - 0 1", "QQQQQQQQ/QQQQQQQQ/8/8/8/8/qqqqqqqq/kqqqqqqK w - - 0 1", "k7/8/8/8/8/8/8/K3K2R w K - 0 1",
+	} {
+		pos, turn, _, _, err := fen.Decode(f)
+		if err != nil || pos == nil {
+			continue
+		}
+		fromSets := func(p *board.Position) *ref.Pos {
+			r := &ref.Pos{EP: -1, White: true}
+			for c := board.ZeroColor; c < board.NumColors; c++ {
+				for pc := board.ZeroPiece; pc < board.NumPieces; pc++ {
+					for _, sq := range p.Piece(c, pc).ToSquares() {
+						v := bridge.RefPiece(pc)
+						if c == board.Black {
+							v = -v
+						}
+						r.Sq[bridge.RefSq(sq)] = v
+					}
+				}
+			}
+			return r
+		}
+		check := func(p *board.Position, where string) {
+			c.Evaluations.Add(1)
+			if msg := viewsSelfConsistent(p, fromSets(p)); msg != "" {
+				c.Violation(cc.sig("C02/odd-views", f+" "+where), msg+" at "+f+" "+where, "C02/note", f+" "+where)
+			}
+		}
+		check(pos, "")
+		for _, side := range []board.Color{turn, turn.Opponent()} {
+			for _, m := range pos.PseudoLegalMoves(side) {
+				if sp, ok := pos.Move(m); ok {
+					check(sp, "after "+bridge.Text(m))
+					for _, m2 := range sp.PseudoLegalMoves(side.Opponent()) {
+						if sp2, ok := sp.Move(m2); ok {
+							check(sp2, "after "+bridge.Text(m)+" "+bridge.Text(m2))
+						}
+					}
+				}
+			}
+		}
 	}
 	c.Sample(map[string]any{"family": "corner pieces with full rights", "node": "r3k2r/8/8/8/8/8/8/R3K2R w KQkq - 0 1", "move": "a1a8"})
 	c.Finish()
